@@ -64,11 +64,36 @@ def gen_leafy(rng):
     return d
 
 
+def tighten(rng, s):
+    """a schema of the same type as s with one more bound (conjoined with s it is the stricter of the two)"""
+    if not isinstance(s, dict) or not isinstance(s.get("type"), str):
+        return gen_leafy(rng)
+    t = dict(s)
+    if t["type"] == "string":
+        t["minLength"] = max(t.get("minLength", 0), 0) + 2
+        t.pop("maxLength", None)
+    elif t["type"] in ("number", "integer"):
+        t["minimum"] = rng.choice([10, 100])
+        t.pop("maximum", None), t.pop("exclusiveMaximum", None)
+    else:
+        return gen_leafy(rng)
+    return t
+
+
+def items_only(rng, prefix):
+    """a conjunct that only has 'items' (it must still reach the positions another conjunct lists in prefixItems)"""
+    return {"items": tighten(rng, rng.choice(prefix))}
+
+
 def gen_tuple(rng):
     """arrays with prefixItems and items, alone or as a conjunction of two tuple schemas of different length"""
     a = {"type": "array", "prefixItems": [gen_leafy(rng) for _ in range(rng.choice([1, 2, 2]))], "items": gen_leafy(rng)}
     if rng.random() < 0.5:
         return a
+    if rng.random() < 0.3:
+        del a["items"]
+        b = items_only(rng, a["prefixItems"])
+        return {"allOf": [a, b] if rng.random() < 0.7 else [b, a]}
     b = {"prefixItems": [gen_leafy(rng) for _ in range(rng.choice([1, 1, 3]))]}
     if rng.random() < 0.4:
         b["items"] = gen_leafy(rng)
@@ -118,6 +143,8 @@ def gen_c01(rng, depth, refs, allow_anyof=True):
                 other = {"prefixItems": [gen_leafy(rng) for _ in range(rng.choice([1, 3]))]}
                 if rng.random() < 0.5:
                     other["items"] = gen_leafy(rng)
+                if "items" not in d and rng.random() < 0.5:
+                    other = items_only(rng, d["prefixItems"])
                 d = {"allOf": [d, other] if rng.random() < 0.5 else [other, d]}
         else:
             d["contains"] = gen_c01(rng, depth - 1, refs, allow_anyof)
@@ -176,6 +203,28 @@ def gen_ref_twins(rng):
     doc = {"type": "object", "properties": {names[0]: a, names[1]: b}, "$defs": {"D": base}}
     if rng.random() < 0.3:
         doc["required"] = [names[0]]
+    return doc
+
+
+def gen_same_twice(rng):
+    """the same sub-schema text at two different places of one schema (two properties, a property and the items of a sibling
+    array, prefixItems[0] and items, two equal nested objects): every place keeps its own counter-examples"""
+    x = gen_leafy(rng)
+    while not (isinstance(x, dict) and "type" in x):
+        x = gen_leafy(rng)
+    if rng.random() < 0.3:
+        x = {"type": "object", "properties": {"k": x}, "required": ["k"]}
+    y = lambda: copy.deepcopy(x)
+    m = rng.random()
+    if m < 0.4:
+        names = rng.sample(J.NAMES, 2)
+        doc = {"type": "object", "properties": {names[0]: y(), names[1]: y()}, "required": names if rng.random() < 0.7 else names[:1]}
+    elif m < 0.65:
+        doc = {"type": "object", "properties": {"a": y(), "b": {"type": "array", "items": y()}}, "required": ["a", "b"]}
+    elif m < 0.85:
+        doc = {"type": "array", "prefixItems": [y()], "items": y(), "minItems": 2}
+    else:
+        doc = {"type": "array", "prefixItems": [y(), y()], "minItems": 2}
     return doc
 
 
@@ -330,6 +379,31 @@ def observe(doc, normalized):
 
 
 # ---------------------------------------------------------------------------------------------
+def has_unsat_leaf(doc):
+    """The normal form of the schema has an array alternative without minItems whose items cannot be satisfied by the
+    generator: every alternative of the items schema has an empty type list or an empty enum, or is again such an array
+    (arrays are generated with one item when minItems is absent).  The empty array is then the only instance there."""
+    try:
+        nf = normalize(copy.deepcopy(doc))
+    except Exception:  # noqa
+        return False
+
+    def types(a):
+        t = a.get("type")
+        return t if isinstance(t, list) else [t] if isinstance(t, str) else None
+
+    def stuck_array(a):
+        return types(a) == ["array"] and isinstance(a.get("items"), dict) and a.get("minItems", 1) >= 1 and unsat(a["items"])
+
+    def unsat(s):
+        if s is False:
+            return True
+        if not isinstance(s, dict) or not isinstance(s.get("anyOf"), list):
+            return False
+        return all(isinstance(a, dict) and "$ref" not in a and (types(a) == [] or a.get("enum") == [] or stuck_array(a)) for a in s["anyOf"])
+    return any("minItems" not in a and stuck_array(a) for a in conjuncts(nf))
+
+
 def oracle_c01(doc):
     g, pairs, err = generate(doc)
     if g is None:
@@ -360,6 +434,16 @@ def oracle_c01(doc):
                 if g2 is not None and not err2 and any(e.is_valid for e, _ in pairs2):
                     sig += ":" + name
                     break
+        elif isinstance(doc, dict) and has_unsat_leaf(doc):
+            # an array whose items cannot be satisfied (false, empty enum) has the empty array as its only instance, and
+            # arrays are generated with one item when minItems is absent
+            import c11
+            try:
+                g2, pairs2, err2 = generate(c11.with_empty_arrays(doc))
+                if g2 is not None and not err2 and any(e.is_valid for e, _ in pairs2):
+                    sig += ":unsatisfiable-items-generated-non-empty"
+            except Exception:  # noqa
+                pass
         res.append((sig, "no sample is labelled valid although the schema is satisfiable (the generated %s is accepted)" % json.dumps(ok), ok))
     return res
 
@@ -488,7 +572,8 @@ def run(pid, tier):
     n = 300 if tier == "quick" else 4000
     docs = []
     while len(docs) < n:
-        d = gen_ref_twins(rng) if rng.random() < 0.06 else gen_doc(rng, allow_anyof=(pid == "C01"))
+        m = rng.random()
+        d = gen_ref_twins(rng) if m < 0.06 else gen_same_twice(rng) if m < 0.12 else gen_doc(rng, allow_anyof=(pid == "C01"))
         if isinstance(d, bool) or J.metaschema_ok(d):
             docs.append(d)
     hist = {"in_scope": 0, "with_ref": 0, "with_allOf": 0, "with_array": 0, "raises_library_exception": 0, "labelled_valid": 0, "labelled_invalid": 0}
@@ -565,7 +650,7 @@ def run(pid, tier):
                 got = [x for x in ORACLES[pid](small) if x[0] == sig]
                 if got:
                     what = got[0][1]
-            full_sig = sig if (pid == "C12" or "recursion-through" in sig) else sig + ":" + classify(small)
+            full_sig = sig if (pid == "C12" or "recursion-through" in sig or "unsatisfiable-items" in sig) else sig + ":" + classify(small)
             ck.violation(full_sig, what, {"stream": "J", "schema": small})
     ck.sample({"schema": docs[0]})
     ck.sample({"schema": docs[5]})
